@@ -22,7 +22,7 @@
 From Coq Require Import ZArith List Bool Lia.
 From Coq Require PrimFloat.
 Import ListNotations.
-From SZ Require Import Lib.Py Gen.Utils Gen.Reader Gen.Header Gen.Headers Gen.Producer Gen.Routes.
+From SZ Require Import Lib.Py Gen.Utils Gen.Reader Gen.Header Gen.Headers Gen.Producer Gen.Window Gen.Routes.
 From SZ Require Import Model.Writer Model.Headers.
 From SZ Require Model.Geometry.
 Open Scope Z_scope.
@@ -168,23 +168,51 @@ Definition ztv_of (n_samples : Z) (E : renv) (t : ztv) : Z :=
 (* an axis as the handle gives it: first, last, count *)
 Record lax := { ax_first : Z; ax_last : Z; ax_n : Z }.
 Definition arith_lax (a d n : Z) : lax := {| ax_first := a; ax_last := a + d * (n - 1); ax_n := n |}.
+
+(* the converted window in ORDINALS of the source: geom = Geometry3d(min_il, max_il, min_xl, max_xl) given to the converter, or
+   detect_geometry's Geometry3d(0, n_il, 0, n_xl) (Gen/Window.v: w_window_geom, w_detect_geom, w_geom_ilines / w_geom_xlines) *)
+Record win := { wi0 : Z; wi1 : Z; wx0 : Z; wx1 : Z }.
+Definition win_of (g : Z * Z * Z * Z) : win := match g with (a, b, c, d) => {| wi0 := a; wi1 := b; wx0 := c; wx1 := d |} end.
+Definition whole (n_il n_xl : Z) : win := win_of (w_detect_geom n_il n_xl).
+Definition win_ok (w : win) (n_il n_xl : Z) : bool :=
+  (0 <=? wi0 w) && (wi0 w <? wi1 w) && (wi1 w <=? n_il) && (0 <=? wx0 w) && (wx0 w <? wx1 w) && (wx1 w <=? n_xl).
+(* range(start, stop, 1): first element, last element, length *)
+Definition rng_first (r : Z * Z * Z) : Z := match r with (a, _, _) => a end.
+Definition rng_last (r : Z * Z * Z) : Z := match r with (_, b, _) => b - 1 end.
+Definition rng_len (r : Z * Z * Z) : Z := match r with (a, b, _) => b - a end.
+Definition g_ilines (w : win) := w_geom_ilines (wi0 w) (wi1 w) (wx0 w) (wx1 w).
+Definition g_xlines (w : win) := w_geom_xlines (wi0 w) (wi1 w) (wx0 w) (wx1 w).
+Definition win_nil (w : win) : Z := rng_len (g_ilines w).        (* len(geom.ilines) *)
+Definition win_nxl (w : win) : Z := rng_len (g_xlines w).
+(* the crop of get_blank_header_info on a (rows, cols) grid: numpy clips a slice stop to the extent *)
+Definition crop_args {A} (f : Z -> Z -> Z -> Z -> A) (w : win) : A :=
+  f (rng_first (g_ilines w)) (rng_last (g_ilines w)) (rng_first (g_xlines w)) (rng_last (g_xlines w)).
+Definition crop_r0 (w : win) : Z := crop_args zgy_crop_row_lo w.
+Definition crop_c0 (w : win) : Z := crop_args zgy_crop_col_lo w.
+Definition crop_rows (w : win) (rows : Z) : Z := Z.min (crop_args zgy_crop_row_hi w) rows - crop_r0 w.
+Definition crop_cols (w : win) (cols : Z) : Z := Z.min (crop_args zgy_crop_col_hi w) cols - crop_c0 w.
+
 Section Arrays.
 Variable lin : Z -> Z -> Z -> Z -> Z.         (* np.linspace(start, stop, num=num, dtype=np.intc)[k] *)
-Variable rnd : rfx -> Z -> Z -> Z.            (* np.round(e).astype(np.intc) at grid position (r, c) *)
+Variable rnd : rfx -> Z -> Z -> Z.            (* np.round(e).astype(np.intc) at grid position (r, c) of the WHOLE-FILE grid *)
 Variables il xl : lax.
 Definition zsym_elem (s : zsym) (r c : Z) : Z :=
   match s with
   | ZLines is_il by_row => let a := if is_il then il else xl in lin (ax_first a) (ax_last a) (ax_n a) (if by_row then r else c)
   | ZRound e => rnd e r c
   end.
-(* word p of the array stored under `key`: tobytes() of the (rows, cols) grid is row-major *)
-Definition zgy_array (key p : Z) : Z :=
-  let cols := zgy_grid_cols (ax_n il) (ax_n xl) in
+(* word p of the array stored under `key` for the window w: the whole-file (rows, cols) grid, cropped, tobytes() row-major *)
+Definition zgy_warray (w : win) (key p : Z) : Z :=
+  let cw := crop_cols w (zgy_grid_cols (ax_n il) (ax_n xl)) in
   match assocZ key zgy_headers_dict with
-  | Some pos => zsym_elem (nth (Z.to_nat pos) zgy_returns (ZLines true true)) (p / cols) (p mod cols)
+  | Some pos => zsym_elem (nth (Z.to_nat pos) zgy_returns (ZLines true true)) (crop_r0 w + p / cw) (crop_c0 w + p mod cw)
   | None => 0
   end.
-Definition zgy_array_words : Z := zgy_grid_rows (ax_n il) (ax_n xl) * zgy_grid_cols (ax_n il) (ax_n xl).
+Definition zgy_warray_words (w : win) : Z :=
+  crop_rows w (zgy_grid_rows (ax_n il) (ax_n xl)) * crop_cols w (zgy_grid_cols (ax_n il) (ax_n xl)).
+(* conversion without a window *)
+Definition zgy_array (key p : Z) : Z := zgy_warray (whole (ax_n il) (ax_n xl)) key p.
+Definition zgy_array_words : Z := zgy_warray_words (whole (ax_n il) (ax_n xl)).
 End Arrays.
 (* what the theorems assume of np.linspace with dtype=np.intc on an arithmetic integer axis (validated by the harness) *)
 Definition lin_exact (lin : Z -> Z -> Z -> Z -> Z) : Prop :=
@@ -192,15 +220,18 @@ Definition lin_exact (lin : Z -> Z -> Z -> Z -> Z) : Prop :=
 (* the concrete rounding of the CDP grids *)
 Definition rnd_float (E : renv) (e : rfx) (r c : Z) : Z := round_intc (rv_f (reval (with_rc E r c) e)).
 
-(* the file the ZGY route writes, as far as trace headers are concerned: make_header's table and count, then
-   SeismicFileConverter.write_headers: every array of headers_dict in dict order, each padded with hx_wr_pad *)
-Definition zgy_write (fields : list Z) (tv : ztv -> Z) (arr : Z -> Z -> Z) (n_il n_xl ndb : Z) : sgzfile :=
+(* the file the ZGY route writes for the window w of an (n_il, n_xl) source, as far as trace headers are concerned: make_header's
+   table, count, array length and trace count (window sizes: Gen/Header.v, Gen/Window.v), then SeismicFileConverter.write_headers:
+   every (cropped) array of headers_dict in dict order, each array.tobytes() padded with hx_wr_pad *)
+Definition zgy_wwrite (fields : list Z) (tv : ztv -> Z) (arr : Z -> Z -> Z) (n_il n_xl : Z) (w : win) (ndb : Z) : sgzfile :=
   let T := zgy_table fields tv in
-  {| f_nhb := hx_header_blocks; f_ndb := ndb; f_hel := hx_hel_3d n_xl n_il; f_count := header_array_count T;
-     f_tracecount := n_il * n_xl; f_is3d := true; f_nil := n_il; f_nxl := n_xl; f_table := to_buffer T;
+  {| f_nhb := hx_header_blocks; f_ndb := ndb; f_hel := hx_hel_3d (win_nxl w) (win_nil w); f_count := header_array_count T;
+     f_tracecount := win_nil w * win_nxl w; f_is3d := true; f_nil := win_nil w; f_nxl := win_nxl w; f_table := to_buffer T;
      f_footer := write_footer hx_wr_pad (4096 * hx_header_blocks + 4096 * ndb)
-                              (4 * (zgy_grid_rows n_il n_xl * zgy_grid_cols n_il n_xl))
+                              (4 * (crop_rows w (zgy_grid_rows n_il n_xl) * crop_cols w (zgy_grid_cols n_il n_xl)))
                               (map (fun kv => arr (fst kv)) zgy_headers_dict) |}.
+Definition zgy_write (fields : list Z) (tv : ztv -> Z) (arr : Z -> Z -> Z) (n_il n_xl ndb : Z) : sgzfile :=
+  zgy_wwrite fields tv arr n_il n_xl (whole n_il n_xl) ndb.
 (* what every field of trace t must read back as *)
 Definition zgy_expected (tv : ztv -> Z) (arr : Z -> Z -> Z) (f t : Z) : Z :=
   if memZ f zgy_tbl_self_keys then arr f t else fst (zgy_fn tv f).
@@ -221,9 +252,11 @@ Definition show_table (T : table) : list (Z * Z * Z) := to_list T.
 Definition corner_of (l : list float) (k c : Z) : float := nth (Z.to_nat (2 * k + c)) l f_zero.
 (* np.linspace on an arithmetic axis, as lin_exact says (the harness checks numpy against this separately) *)
 Definition lin_model (a b n k : Z) : Z := if n <=? 1 then a else a + ((b - a) / (n - 1)) * k.
-Definition model_zgy_arrays (corners : list float) (il xl : lax) : list (Z * list Z) :=
+Definition model_zgy_warrays (corners : list float) (il xl : lax) (w : win) : list (Z * list Z) :=
   let E := zgy_env f_zero f_zero (corner_of corners) (ax_n il) (ax_n xl) in
-  map (fun kv => (fst kv, map (zgy_array lin_model (rnd_float E) il xl (fst kv)) (zrange 0 (zgy_array_words il xl)))) zgy_headers_dict.
+  map (fun kv => (fst kv, map (zgy_warray lin_model (rnd_float E) il xl w (fst kv)) (zrange 0 (zgy_warray_words il xl w)))) zgy_headers_dict.
+Definition model_zgy_arrays (corners : list float) (il xl : lax) : list (Z * list Z) :=
+  model_zgy_warrays corners il xl (whole (ax_n il) (ax_n xl)).
 Definition model_zgy_table (n_samples : Z) (zinc : float) : list (Z * Z * Z) :=
   let E := zgy_env f_zero zinc (fun _ _ => f_zero) 0 0 in
   filter (fun r => match r with (k, a, b) => negb ((a =? 0) && (b =? 0)) end) (to_list (zgy_table segy_fields (ztv_of n_samples E))).
